@@ -58,6 +58,14 @@ EXPLANATION = ("Tie to the code, two ways: (1) the whole method filter_eligible_
                "the selection-order and the screen-order batch lists.  Modelled, not verified: numpy/pandas id encoding inside Screen, "
                "the ScoresHolder storage; the rng argument is unused by this policy.")
 
+# ---- wave 6 of the source link: the constructor (Generated/SrcInits.v, Proofs/C16Source_Init_Policy.v, C16Source_ConstructedPolicy.v) ----
+THEOREMS.update({
+    "C16_model_is_source_init": "the translated KPerSamplePlatePolicy.__init__ stores k: the self.k the translated filter_eligible_plates reads is the k the policy was constructed with",
+    "C16_source_constructed_policy": "translated __init__ composed with the translated method: the policy constructed with k is the model filter_eligible k, for all k, batch and remaining plates",
+})
+EXPLANATION += ("  CONSTRUCTOR: KPerSamplePlatePolicy.__init__ is re-translated on every run (LS_INIT_POLICY -> Generated/SrcInits.v) and proved to store k; "
+                "trusted: the translator only (no primitive): `self.<attr>` is a variable of the translation (attr_vars), the value of the translated __init__ is the tuple of the attributes when it ends; an attribute that is not declared is refused.")
+
 logging.getLogger("batchie").setLevel(logging.ERROR)
 
 
